@@ -352,9 +352,13 @@ fn mut_to(m: &Mutation) -> Value {
         Mutation::Truncate { len } => json!({"truncate": {"len": len}}),
         Mutation::Tail { bytes } => json!({"tail": {"bytes_hex": hex(bytes)}}),
         Mutation::Version { v } => json!({"version": {"v": v.to_string()}}),
+        Mutation::FixChecksum => json!("recompute_checksum"),
     }
 }
 fn mut_from(v: &Value) -> R<Mutation> {
+    if v.as_str() == Some("recompute_checksum") {
+        return Ok(Mutation::FixChecksum);
+    }
     if let Some(x) = v.get("subst") {
         return Ok(Mutation::Subst { pos: get_usize(x, "pos")?, val: get_u64(x, "val")? as u8 });
     }
@@ -463,7 +467,7 @@ pub fn multi_from(v: &Value) -> R<MultiCase> {
 }
 
 fn fam_to(f: &KeyFamily) -> Value {
-    json!({"n": f.n, "fanout": f.fanout, "keylen": f.keylen, "seed": f.seed.to_string(), "prefix_pairs": f.pairs})
+    json!({"n": f.n, "fanout": f.fanout, "keylen": f.keylen, "seed": f.seed.to_string(), "prefix_pairs": f.pairs, "leaf_fan": f.leaf_fan, "decreasing_values": f.decreasing})
 }
 fn fam_from(v: &Value) -> R<KeyFamily> {
     Ok(KeyFamily {
@@ -472,6 +476,8 @@ fn fam_from(v: &Value) -> R<KeyFamily> {
         keylen: get_u64(v, "keylen")? as u32,
         seed: get_str(v, "seed")?.parse().map_err(|_| "seed")?,
         pairs: v.get("prefix_pairs").and_then(|x| x.as_bool()).unwrap_or(false),
+        leaf_fan: v.get("leaf_fan").and_then(|x| x.as_u64()).unwrap_or(0) as u32,
+        decreasing: v.get("decreasing_values").and_then(|x| x.as_bool()).unwrap_or(false),
     })
 }
 
